@@ -444,6 +444,14 @@ Proof.
 Qed.
 Print Assumptions C10_source_order.
 
+(* The lock discipline the two models rest on, read off the source: Push / Tag / Untag / SaveIndex
+   hold the read lock for the whole call (the concurrent model's threads), Delete and GC the write
+   lock (sequential operations), saveIndex holds indexLock from before its resolver snapshot until
+   index.json is renamed into place (the concurrent model's critical section). *)
+Theorem C10_source_locks : src_locks_ok = true.
+Proof. exact src_locks. Qed.
+Print Assumptions C10_source_locks.
+
 (* The code before the repair (os.WriteFile on index.json itself, [inplace = true]):
    the theorem is false.  Witness: SaveIndex on the fresh store cut after open(O_TRUNC). *)
 Theorem C10_crash_safe_refuted_inplace :
